@@ -25,6 +25,14 @@ PRIM_FMT = {"u8": "<B", "i8": "<b", "u16": "<H", "i16": "<h", "u32": "<I", "i32"
 STRUCTS = {"S2": [{"k": "prim", "p": "u8"}, {"k": "prim", "p": "u16"}], "S3": [{"k": "prim", "p": "u32"}, {"k": "prim", "p": "u8"}, {"k": "prim", "p": "u16"}],
            "SW": [{"k": "prim", "p": "u8"}, {"k": "prim", "p": "i64"}]}
 OPQ_PTR = 0x2000
+# two enums take turns (by case number): En has gaps (JS keeps its singletons in an object keyed by discriminant), En2 has explicit
+# gap-free discriminants that do not start at 0 (the contiguous fast path may only be taken for 0..n-1)
+ENUMS = {"En": ("B", 5), "En2": ("Q", 2)}
+CUR_ENUM = ["En"]
+
+
+def use_enum_of(n):
+    CUR_ENUM[0] = "En2" if n % 2 else "En"
 
 
 def rust_field(t):
@@ -32,7 +40,7 @@ def rust_field(t):
     if k == "prim":
         return abisig.PRIM_RUST[t["p"]]
     if k == "enum":
-        return "En"
+        return CUR_ENUM[0]
     if k == "opq":
         return "&'a Opq"
     if k == "slice":
@@ -71,7 +79,7 @@ class Val:
                 js = repr(v)
             return js, [struct.pack(PRIM_FMT[p], v)]
         if k == "enum":
-            return "En.B", [struct.pack("<i", 5)]
+            return "%s.%s" % (CUR_ENUM[0], ENUMS[CUR_ENUM[0]][0]), [struct.pack("<i", ENUMS[CUR_ENUM[0]][1])]
         if k == "opq":
             return "opq", [struct.pack("<I", OPQ_PTR)]
         if k == "slice":
@@ -165,11 +173,13 @@ def run(rep, tier):
 def run_abi(rep, tier, cases, abi, wd, rng):
     vg = Val(random.Random(lib.seed()))
     items = ["    #[diplomat::opaque]\n    pub struct Opq(pub u8);\n    #[diplomat::opaque]\n    pub struct Host(pub u8);\n"
-             "    pub enum En { A, B = 5, C }\n"]
+             "    pub enum En { A, B = 5, C }\n    pub enum En2 { P = 1, Q = 2, R = 3 }\n"]
+    use_enum_of(0)
     for n, fs in STRUCTS.items():
         items.append("    pub struct %s {\n%s    }\n" % (n, "".join("        pub %s: %s,\n" % (FN[i], rust_field(f)) for i, f in enumerate(fs))))
     methods = []
     for n, c in enumerate(cases):
+        use_enum_of(n)
         lt = "<'a>" if needs_lt(c["fields"]) else ""
         items.append("    pub struct W%d%s {\n%s    }\n" % (n, lt, "".join("        pub %s: %s,\n" % (FN[i], rust_field(f)) for i, f in enumerate(c["fields"]))))
         methods.append("        pub fn take%d%s(&self, s: W%d%s) {}\n" % (n, lt, n, lt))
@@ -187,7 +197,7 @@ def run_abi(rep, tier, cases, abi, wd, rng):
         return 0
     open(os.path.join(out, "diplomat-wasm.mjs"), "w").write(STUB)
     lines = ['import wasm, { calls } from "./diplomat-wasm.mjs";', 'import * as rt from "./diplomat-runtime.mjs";',
-             'import { Host } from "./Host.mjs";', 'import { Opq } from "./Opq.mjs";', 'import { En } from "./En.mjs";']
+             'import { Host } from "./Host.mjs";', 'import { Opq } from "./Opq.mjs";', 'import { En } from "./En.mjs";', 'import { En2 } from "./En2.mjs";']
     for n in range(len(cases)):
         lines.append('import { W%d } from "./W%d.mjs";' % (n, n))
     lines.append("const host = new Host(rt.internalConstructor, 0x100, []);\nconst opq = new Opq(rt.internalConstructor, %d, []);" % OPQ_PTR)
@@ -197,6 +207,7 @@ def run_abi(rep, tier, cases, abi, wd, rng):
     lines.append("const anyMap = new Proxy({}, { get: () => [] });")
     expect = []
     for n, c in enumerate(cases):
+        use_enum_of(n)
         parts, leaves = [], []
         for i, f in enumerate(c["fields"]):
             js, lv = vg.gen(f)
@@ -232,6 +243,7 @@ def run_abi(rep, tier, cases, abi, wd, rng):
         return 0
     ncmp = 0
     for n, c in enumerate(cases):
+        use_enum_of(n)
         d = res.get(n)
         ly = c["layout"]
         kinds = [f["k"] + ":" + str(f.get("p") or f.get("n") or (f.get("t") or {}).get("p") or (f.get("t") or {}).get("n") or "") for f in c["fields"]]
@@ -324,7 +336,7 @@ def readback_expect(f, vg, img, c, i):
             return True
         return v
     if k == "enum":
-        return "ffi:5"
+        return "ffi:%d" % ENUMS[CUR_ENUM[0]][1]
     return None      # nested values are covered by the byte image and by their own single-field cases
 
 
